@@ -86,12 +86,15 @@ func c01GetAlphabet() *c01Alphabet {
 			a.tA, a.tB, // different texts with equal 32-bit hashes, both kept in the sequential table (short shortcut)
 			"/AB$match-case", "/ab$match-case", // texts that differ in letter case only (sequential table)
 			c01LongRule(), // longer than the list scanner's 4 KiB buffer, filed by $domain; its last domain is a request source
+			"tps://example.org^", "s://ex", // literals that begin in the middle of the scheme name
 		)
 		long := "http://example.org/ads?" + strings.Repeat("x", 4070) + "/banner-ads-"
 		urls := []string{"http://example.org/", "https://sub.example.org/ads?x=1", "http://x.com/banner", "http://EXAMPLE.ORG/ADS", "http://example.org/?u=example.org",
 			"http://x.test/" + a.wA + "/", "http://x.test/" + a.wB + "/", "http://example.org/-ads-/ad", "https://y.test/ad", "http://x.test/реклама-x?q", "http://example.org/\u212aelvin-ads-/\u0130/ad", "http://ads1.example.org/?u=http://ads2.example.org/", long, "http://example.example.org/-ads-/-ads-",
 			"http://x.com/\u023a\u023e\u023a/banner", "https://sub.example.org/\xe9\xe9\xe9/ads?x=1", // the lower-cased URL is longer in bytes than the URL (case pairs of other lengths, bytes that are not UTF-8), a rule's shortcut at its very end
-			"http://" + strings.TrimSuffix(strings.TrimPrefix(a.tA, "||"), "^") + "/AB", "http://" + strings.TrimSuffix(strings.TrimPrefix(a.tB, "||"), "^") + "/x/ab"}
+			"http://" + strings.TrimSuffix(strings.TrimPrefix(a.tA, "||"), "^") + "/AB", "http://" + strings.TrimSuffix(strings.TrimPrefix(a.tB, "||"), "^") + "/x/ab",
+			"http://EXAMPLE.org/ADS/x", // the URL a $match-case rule with capital letters accepts: its index key has to be found through the lower-cased URL
+			"https://example.org/ads"}
 		srcs := []string{"", "http://example.org/", "http://sub.example.org/", "https://www.google.co.uk/", "http://x.google.agoogle.com/", "http://" + a.hA + "/", "http://" + a.hB + "/", "http://x.com/", "http://user.github.io/", "http://a.co.uk/", "http://badexample.org/", "http://www.badexample.org/", "http://site0399.test/", "http://EXAMPLE.org/", "http://l8.l7.l6.l5.l4.l3.l2.l1.example.org/"}
 		for _, u := range urls {
 			for _, s := range srcs {
